@@ -152,7 +152,7 @@ class Ctx:
         if self.violations:
             import collections
             cnt = collections.Counter(jdump({k: v for k, v in v_["ident"].items()
-                                             if k not in ("corpus", "h", "kv_prefix", "input", "x", "instance", "test", "edges", "data", "inst", "a", "b", "y", "c", "event", "seed", "history", "exc", "first_step", "doc", "prior")})[:300]
+                                             if k not in ("corpus", "h", "kv_prefix", "input", "x", "instance", "test", "edges", "data", "inst", "a", "b", "y", "c", "event", "seed", "history", "exc", "first_step", "doc", "prior", "first", "col2")})[:300]
                                       for v_ in self.violations)
             for k, n in cnt.most_common(40):
                 self.log("  %5d x %s" % (n, k))
